@@ -1,9 +1,9 @@
 //! string family: StaticString<N>, PolymorphicString (allocator handing out non-zeroed memory),
 //! RelocatableString
-use crate::{CAPS, Case, note_reloc};
-use checks_bb::models::string::*;
-use checks_bb::models::{Known, direct, op_sequences};
-use checks_bb::reloc::Block;
+use crate::families::{CAPS, Case, note_reloc};
+use crate::models::string::*;
+use crate::models::{Known, direct, op_sequences};
+use crate::reloc::Block;
 use iceoryx2_bb_container::string::{PolymorphicString, RelocatableString, StaticString, String as IoxString};
 use proptest::prelude::*;
 use serde_json::json;
@@ -13,7 +13,7 @@ use vcore::{Ctx, Failure, Obs, ensure};
 
 static DIRTY: DirtyHeap = DirtyHeap;
 
-fn run_case(c: &Case<StrOp>, obs: &mut Obs, known: &Known) -> Result<(), Failure> {
+pub fn run_case(c: &Case<StrOp>, obs: &mut Obs, known: &Known) -> Result<(), Failure> {
     known.begin_case();
     let mut nohook = |_: usize| {};
     macro_rules! fixed {
@@ -115,7 +115,7 @@ pub fn parts(ctx: &mut Ctx) {
     probes(ctx);
     let alphabet = strop_alphabet();
     let len = ctx.scale(5, 6);
-    let grid = crate::combos(3, |f, c| f == 0 && c == 0);
+    let grid = crate::families::combos(3, |f, c| f == 0 && c == 0);
     let cases = grid.iter().copied().flat_map(|(flavour, cap)| {
         op_sequences(&alphabet, len).map(move |ops| Case { flavour, cap, reloc: 0, ops })
     });
